@@ -236,8 +236,9 @@ def _ratfun_compare(self, interp, op, other, reflected, node):
             return op is ast.NotEq
         return NotImplemented
     a, b = (o, self) if reflected else (self, o)
-    if op in (ast.Eq, ast.NotEq) and a.same(b):
-        return op is ast.Eq
+    if a.same(b):
+        # the same rational function on both sides: every comparison is decided
+        return op in (ast.Eq, ast.LtE, ast.GtE)
     interp.__dict__.setdefault("log", []).append(("cmp", op.__name__, a, b))
     return interp.fork("%s %s %s" % (a, op.__name__, b))
 
